@@ -267,6 +267,11 @@ func (d *Dispatcher) AddPeer(
 func (d *Dispatcher) addPeer(
 	peerID core.PeerID, isPeerOrigin bool, b *bitset.BitSet, messages Messages) (*peer, error) {
 
+	if int(b.Len()) > d.torrent.NumPieces() {
+		return nil, fmt.Errorf(
+			"bitfield length %d exceeds number of pieces %d", b.Len(), d.torrent.NumPieces())
+	}
+
 	pstats := &peerStats{}
 	if s, ok := d.peerStats.LoadOrStore(peerID, pstats); ok {
 		ps, ok := s.(*peerStats)
